@@ -163,6 +163,12 @@ def gen_quic_conn(R, cid, cfg, used, **epkw):
     q["net_seed"] = R.bits(40)
     conn = {"id": cid, "proto": "quic", "sub": R.bits(63), "v6": v6, "c": c, "s": s, "q": q, "pad_eth": R.chance(50),
             "t": G.gen_timing(R.fork("t"), cid, cfg.get("policy", "concurrent")), "unique_ts": True}
+    if q["scid_c_len"] > 0 and q["scid_s_len"] > 0 and len(script) >= 2 and A.chance(cfg.get("migrate_pct", 0)):
+        # NAT rebinding: from some flight on the client's datagrams come from (and go to) a new address
+        M = R.fork("mig")
+        mc, _ = G.gen_endpoints(M, v6, used, server_ip=s["ip"], server_port=s["port"])
+        conn["c_mig"] = {"mac": c["mac"], "ip": mc["ip"], "port": mc["port"]}
+        q["migrate_at"] = M.range(1, len(script) - 1)
     if cfg.get("net"):
         apply_net(conn, Rng(q["net_seed"], "net"), cfg["net"])
     return conn
@@ -634,13 +640,18 @@ def build_units(conn):
             if f[d]:
                 sent_in_gen[d].add(side[d].gen)
     units = []
-    for f in flights:
+    mig_from = None
+    if q.get("migrate_at") is not None and conn.get("c_mig"):
+        mig_from = len(flights) - len(script) + q["migrate_at"]
+    for fi, f in enumerate(flights):
         u = {"c": [], "s": []}
         for d in "cs":
             for i in f[d]:
                 e = {"dg": i}
                 if i in acts:
                     e["act"] = acts[i]
+                if mig_from is not None and fi >= mig_from:
+                    e["mig"] = True
                 u[d].append(e)
         units.append(u)
     keylog = []
@@ -705,7 +716,7 @@ def reduction_candidates(conn):
                 c = copy.deepcopy(conn)
                 del c["q"]["script"][i][key]
                 yield "flight %d: no %s" % (i, key), c
-    for key, simple in (("retry", False), ("zero_rtt", None), ("early_s", False), ("hs_dup", None), ("one_way", None), ("s_coalesce", False),
+    for key, simple in (("retry", False), ("zero_rtt", None), ("early_s", False), ("hs_dup", None), ("one_way", None), ("migrate_at", None), ("s_coalesce", False),
                         ("c_coalesce", False), ("ch_cuts", []), ("pad_mode", "frames")):
         if q.get(key) not in (simple, None, False, []):
             c = copy.deepcopy(conn)
